@@ -465,10 +465,22 @@ Definition featureData_tag (B : behaviour) (t : tag) (feature_index : Z) (m : Ra
 
 Definition zmax_list (l : list Z) : Z := fold_right Z.max 0 l.
 
-(** phase 1 for one position index: read row, pad / truncate; yields per dimension (start, end, point?) where
-    point? is the repaired test "this dimension is unspecified or its extent is zero" *)
+(** one entry of a row after phase 1: start, end, "point?" (the repaired test: the dimension is unspecified or
+    its extent is zero) and "specified?" *)
+Record rowent := mkEnt { e_start : F64; e_end : F64; e_point : bool; e_spec : bool }.
+
+Fixpoint row_entries (B : behaviour) (specified : Z) (i : Z) (os es : list F64) : list rowent :=
+  match os, es with
+  | o :: os', e :: es' =>
+      let is_spec := i <? specified in
+      let end_ := if pad_end_is_last B && negb is_spec then e else fadd o e in              (* SWITCH item 28 *)
+      mkEnt o end_ (negb is_spec || feq e fzero) is_spec :: row_entries B specified (i + 1) os' es'
+  | _, _ => []
+  end.
+
+(** phase 1 for one position index: read row, pad / truncate *)
 Definition mtag_row (B : behaviour) (mt : mtag) (ndims : Z) (max_extents : list (F64 * F64))
-           (temp_count : list Z) (rankP : Z) (index : Z) : list (F64 * F64 * bool) :=
+           (temp_count : list Z) (rankP : Z) (index : Z) : list rowent :=
   let temp_offset := list_set (zrepeat 0 rankP) 0 index in
   let offset := nd_read (m_pos mt) temp_offset temp_count in
   let extent := match m_ext mt with
@@ -479,29 +491,25 @@ Definition mtag_row (B : behaviour) (mt : mtag) (ndims : Z) (max_extents : list 
   let pad := skipn (List.length offset) max_extents in
   let offset' := firstn (Z.to_nat ndims) (offset ++ map fst pad) in
   let extent' := firstn (Z.to_nat ndims) (extent ++ map snd pad) in
-  let fix go (i : Z) (os es : list F64) : list (F64 * F64 * bool) :=
-    match os, es with
-    | o :: os', e :: es' =>
-        let is_spec := i <? specified in
-        let end_ := if pad_end_is_last B && negb is_spec then e else fadd o e in             (* SWITCH item 28 *)
-        (o, end_, negb is_spec || feq e fzero) :: go (i + 1) os' es'
-    | _, _ => []
-    end in
-  go 0 offset' extent'.
+  row_entries B specified 0 offset' extent'.
 
 (** column [k] of the rows *)
 Definition column {A} (rows : list (list A)) (k : nat) (dflt : A) : list A := map (fun r => nth k r dflt) rows.
 
-(** phase 3 for position i (its place in the index list) and one dimension *)
-Definition mtag_dim (B : behaviour) (rankP : Z) (i : Z) (d : dimd) (unit : string)
-           (rng : option (Z * Z)) (sep : F64 * F64 * bool) : res (Z * Z) :=
+Definition no_entry : rowent := mkEnt fzero fzero false false.
+
+(** phase 3 for position i (its place in the index list) and dimension k *)
+Definition mtag_dim (B : behaviour) (rankP : Z) (shape : list Z) (i k : Z) (d : dimd) (unit : string)
+           (rng : option (Z * Z)) (ent : rowent) : res (Z * Z) :=
+  if pad_index_range B && negb (e_spec ent)                                                  (* SWITCH item 3 *)
+  then bind (nd_at shape k) (fun s => Ok (0, s))
+  else
   match rng with
   | Some (first, second) => Ok (first, u64_add 1 (u64_sub second first))
   | None =>
-      let '(s, e, pt) := sep in
-      let point := if mt_point_by_extent B then pt else feq e s in                           (* SWITCH item 31 *)
+      let point := if mt_point_by_extent B then e_point ent else feq (e_end ent) (e_start ent) in   (* SWITCH item 31 *)
       if point then
-        bind (positionToIndex_one e unit GE d) (fun ofst =>
+        bind (positionToIndex_one (e_end ent) unit GE d) (fun ofst =>
         match ofst with
         | None => Err E_OutOfBounds
         | Some o =>
@@ -512,6 +520,31 @@ Definition mtag_dim (B : behaviour) (rankP : Z) (i : Z) (d : dimd) (unit : strin
       else if mt_invalid_range_throws B then Err E_OutOfBounds                                (* SWITCH item 4 *)
       else Ok (0, 1)
   end.
+
+(** temp_count: ones, with position_size[1] entries along the second dimension when the data has more than one dimension *)
+Definition mtag_temp_count (position_size : list Z) (dimension_count : Z) : res (list Z) :=
+  let rankP := zlen position_size in
+  let dim_index := if dimension_count >? 1 then 1 else 0 in
+  bind (if dimension_count >? 1 then nd_at position_size dim_index else Ok 1) (fun count =>
+  nd_set (zrepeat 1 rankP) dim_index count).
+
+(** phase 2: batched conversion per dimension *)
+Definition mtag_phase2 (dimensions : list dimd) (units : list string) (m : RangeMatch) (rows : list (list rowent))
+  : res (list (list (option (Z * Z)))) :=
+  mapMi (fun k d =>
+          let col := column rows (Z.to_nat k) no_entry in
+          let unit := nth (Z.to_nat k) units "none" in
+          positionToIndex_vec (map e_start col) (map e_end col) (map (fun _ => unit) col) m d) 0 dimensions.
+
+(** phase 3: per index assembly *)
+Definition mtag_phase3 (B : behaviour) (rankP : Z) (shape : list Z) (dimensions : list dimd) (units : list string)
+           (data_indices : list (list (option (Z * Z)))) (rows : list (list rowent)) : res (list (list Z * list Z)) :=
+  mapMi (fun i row =>
+     bind (mapMi (fun k d =>
+             let unit := nth (Z.to_nat k) units "none" in
+             let rng := nth (Z.to_nat i) (nth (Z.to_nat k) data_indices []) None in
+             mtag_dim B rankP shape i k d unit rng (nth (Z.to_nat k) row no_entry)) 0 dimensions) (fun ocs =>
+     Ok (map fst ocs, map snd ocs))) 0 rows.
 
 (** getOffsetAndCount(const MultiTag &, const DataArray &, const vector<ndsize_t> &indices, vector<NDSize> &offsets,
     vector<NDSize> &counts, RangeMatch) - declared in the header as getOffestAndCount *)
@@ -536,24 +569,11 @@ Definition getOffsetAndCount_mtag (B : behaviour) (mt : mtag) (a : darray) (indi
              end) (fun oob =>
   if (oob : bool) then Err E_OutOfBounds else
   let rankP := zlen position_size in
-  let dim_index := if dimension_count >? 1 then 1 else 0 in
-  bind (if dimension_count >? 1 then nd_at position_size dim_index else Ok 1) (fun count =>
-  bind (nd_set (zrepeat 1 rankP) dim_index count) (fun temp_count =>
+  bind (mtag_temp_count position_size dimension_count) (fun temp_count =>
   (* phase 1: rows *)
   let rows := map (mtag_row B mt dimension_count max_extents temp_count rankP) indices in
-  (* phase 2: batched conversion per dimension *)
-  bind (mapMi (fun k d =>
-          let col := column rows (Z.to_nat k) (fzero, fzero, false) in
-          let unit := nth (Z.to_nat k) units "none" in
-          positionToIndex_vec (map (fun x => fst (fst x)) col) (map (fun x => snd (fst x)) col)
-                              (map (fun _ => unit) col) m d) 0 dimensions) (fun data_indices =>
-  (* phase 3: per index assembly *)
-  mapMi (fun i row =>
-     bind (mapMi (fun k d =>
-             let unit := nth (Z.to_nat k) units "none" in
-             let rng := nth (Z.to_nat i) (nth (Z.to_nat k) data_indices []) None in
-             mtag_dim B rankP i d unit rng (nth (Z.to_nat k) row (fzero, fzero, false))) 0 dimensions) (fun ocs =>
-     Ok (map fst ocs, map snd ocs))) 0 rows)))))
+  bind (mtag_phase2 dimensions units m rows) (fun data_indices =>
+  mtag_phase3 B rankP (a_shape a) dimensions units data_indices rows))))
   end).
 
 (** getOffsetAndCount(const MultiTag &, const DataArray &, ndsize_t index, ...) *)
